@@ -35,8 +35,8 @@ def gen(rng, tier):
         if g.undefined_symbols() or not g.all_productive():
             continue
         texts.append(g.render())
-    from gram import seq_grammar, twins_grammar, diamond_grammar, layered_grammar, mutual_grammar
-    for gen_f, k in ((twins_grammar, 40), (seq_grammar, 25), (diamond_grammar, 15), (layered_grammar, 15), (mutual_grammar, 40)):
+    from gram import seq_grammar, twins_grammar, diamond_grammar, layered_grammar, mutual_grammar, permute_grammar, samerest_grammar
+    for gen_f, k in ((permute_grammar, 12), (samerest_grammar, 12), (twins_grammar, 40), (seq_grammar, 25), (diamond_grammar, 15), (layered_grammar, 15), (mutual_grammar, 40)):
         for _ in range(k if tier == "quick" else k * 12):
             g = gen_f(rng)
             if g.undefined_symbols() or not g.all_productive():
